@@ -78,12 +78,27 @@ def viol(fam, sym, detail):
     return {'signature': 'C18|%s|%s' % (fam, sym), 'detail': detail}
 
 
+import typing
+
+
+class TypedRow(typing.NamedTuple):
+    c0: int
+    c1: str
+    c2: float
+    c3: bool
+
+
 def roundtrip(rows, types, sep=',', esc='\\'):
     """rows: list of tuples; returns (loaded rows as tuples, error)."""
     names = ['c%d' % i for i in range(len(types))]
     Row = namedtuple('Row', names)
     sink = RawSink()
-    parser = rscsv.create_line_parser(dtype=[(n, t) for n, t in zip(names, types)], separator=sep, escapechar=esc)
+    if types == [int, str, float, bool] and len(rows) % 2 == 1:
+        # the schema given as a typing.NamedTuple class (the other documented form of dtype)
+        Row = TypedRow
+        parser = rscsv.create_line_parser(dtype=TypedRow, separator=sep, escapechar=esc)
+    else:
+        parser = rscsv.create_line_parser(dtype=[(n, t) for n, t in zip(names, types)], separator=sep, escapechar=esc)
     sink.subscribe_to(rx.from_([Row(*r) for r in rows]).pipe(
         rscsv.dump(separator=sep, escapechar=esc),
         rx.operators.map(lambda l: l[:-1] if l.endswith('\n') else l),
